@@ -121,6 +121,8 @@ class Ctx:
             r = subprocess.run(cmd, cwd=REPO, env=env, capture_output=True, text=True, timeout=timeout)
         except subprocess.TimeoutExpired:
             return {'timeout': True, 'failed': [], 'covers': [], 'panic': '', 'regions': []}
+        if os.environ.get('VERIF_DUMP'):
+            print('\n'.join(l for l in r.stdout.splitlines() if l.startswith(('VERIF-DUMP', '  '))))
         for line in r.stdout.splitlines():
             if line.startswith('VERIF-RESULT '):
                 res = json.loads(line[len('VERIF-RESULT '):])
@@ -159,6 +161,13 @@ class Ctx:
         d = {'property': self.pid, 'entry': entry, 'label': label, 'inputs': inputs}
         if extra:
             d.update(extra)
+        # generated files of the scratch directory (constants of a transition-system configuration) travel with the replay
+        inline = {}
+        for k, v in (d.get('files') or {}).items():
+            if isinstance(v, str) and os.path.isabs(v) and v.startswith(self.out) and os.path.exists(v):
+                inline[k] = open(v).read()
+        if inline:
+            d['inline_files'] = inline
         json.dump(d, open(p, 'w'), indent=1, sort_keys=True)
         return p
 
